@@ -59,7 +59,7 @@ type AdvScenario struct {
 var advHTTP = []string{"path-variant", "get-acc", "get-chars", "put-val", "put-ev", "pairings-add", "pairings-remove", "pairings-list", "resource", "identify"}
 var advSetup = []string{"ps-m1", "ps-m3-right", "ps-m3-wrong", "ps-m3-a0", "ps-m3-aN", "ps-m3-noA", "ps-m3-a0-pubproof", "ps-m3-a0-pubproof", "ps-m3-longA", "ps-m3-badprooflen", "ps-m5-weak", "ps-m5-genuine", "ps-m5-tampered", "ps-m5-short", "ps-m5-zero", "ps-m5-nilk", "ps-m5-random", "ps-m5-othersig", "ps-m5-othername", "ps-m5-replay", "ps-unknown-state", "ps-unknown-method"}
 var advVerify = []string{"pv-m1", "pv-m1-short", "pv-m3-genuine", "pv-m3-wrongkey", "pv-m3-unknown", "pv-m3-self", "pv-m3-stale", "pv-m3-reordered", "pv-m3-replay", "pv-m3-wrongseal", "pv-m3-short", "pv-m3-badtlv", "pv-unknown-state"}
-var advCipher = []string{"enc-get-own", "enc-get-zero", "enc-get-random", "enc-replay-L", "plain-after"}
+var advCipher = []string{"replay-legit-handshake", "replay-legit-handshake", "enc-get-own", "enc-get-zero", "enc-get-random", "enc-replay-L", "plain-after"}
 var advFuzz = []string{"fuzz-pair-setup", "fuzz-pair-verify", "fuzz-pairings", "fuzz-characteristics", "fuzz-resource", "fuzz-accessories", "fuzz-identify"}
 
 func genFuzzBody(rt *rapid.T) string {
@@ -159,7 +159,7 @@ func genAdv(prop string) func(rt *rapid.T) interface{} {
 				sc.LegitAdmin = rapid.SampledFrom([]string{"remove", "rekey"}).Draw(rt, "adminkind")
 				kinds = append(kinds, "pv-m3-genuine", "pv-m3-genuine", "pv-m3-genuine-new", "pv-m3-genuine-new", "pv-m1")
 			}
-			kinds = append(kinds, "enc-get-own", "enc-get-own", "plain-after", "get-acc")
+			kinds = append(kinds, "enc-get-own", "enc-get-own", "plain-after", "get-acc", "replay-legit-handshake")
 		case "C13":
 			sc.KnowsCode = true
 			sc.KnowsKey = true
@@ -258,6 +258,7 @@ type advWorld struct {
 	appDone         bool
 	capturedM5      []byte // encrypted-data value of the legitimate controller's M5
 	capturedPVM3    []byte // TLV body of the legitimate controller's verify finish
+	capturedPVM1    []byte // TLV body of its verify start
 	snapshotCalls   int
 	removedOK       map[string]bool // pairings the legitimate controller removes
 
@@ -960,6 +961,27 @@ func (aw *advWorld) do(p *peerConn, op AdvOp) *advResult {
 		}
 		r.Sent = true
 		aw.readCipherAnswer(p, p.cl.Shared, r)
+	case "replay-legit-handshake":
+		// everything an on-path observer recorded of the legitimate controller's connection - verify start,
+		// verify finish, encrypted requests - is sent again on a fresh connection
+		if aw.capturedPVM1 == nil || aw.capturedPVM3 == nil {
+			p.request("GET", "/accessories", "", nil, r)
+			return r
+		}
+		aw.newSlotConn(p)
+		w.Sim.Count("probe.replayed_handshake")
+		p.post("/pair-verify", ref.CTypeTLV, aw.capturedPVM1, r)
+		r2 := &advResult{Op: op}
+		if !p.dead {
+			p.post("/pair-verify", ref.CTypeTLV, aw.capturedPVM3, r2)
+			if aw.on("C03", "C01") && r2.TLV != nil && tlvState(r2.TLV) == 4 && tlvErr(r2.TLV) == 0 {
+				aw.violate("finish-accepted", "the legitimate controller's recorded start and finish requests, replayed on a new connection, were accepted")
+			}
+		}
+		if !p.dead {
+			return aw.do(p, AdvOp{Conn: p.slot, Kind: "enc-replay-L", Arg: op.Arg})
+		}
+		return r2
 	case "plain-after":
 		// a plaintext request after whatever happened before on this connection
 		p.cl.Enc = p.cl.Enc && aw.verifiedConns[p.conn.ID]
@@ -1110,6 +1132,11 @@ func runAdv(t *testing.T, sci interface{}) *Outcome {
 					aw.capturedM5 = lastTLVItem(w.Sim.Conns[c.ID].Sent[0], ref.TagEncrypted)
 				}
 				aw.allowedVerified[c.ID] = true
+				cl.OnSend = func(b []byte) {
+					if aw.capturedPVM1 == nil && bytes.Contains(b, []byte("/pair-verify")) {
+						aw.capturedPVM1 = lastBody(b)
+					}
+				}
 				ok, err := cl.PairVerify(aw.legitID, aw.legitKP, accLTPK)
 				if err != nil || !ok {
 					aw.legitErr = fmt.Sprintf("legit pair-verify: ok=%v err=%v", ok, err)
